@@ -411,6 +411,7 @@ func checkC20(p *Prog, res *Result, tier string) {
 	res.rule("C20-R1", "every metric name is emitted with one kind and one set of label names at all emission sites; names and labels are valid, unique and not reserved", 80)
 	res.rule("C20-R2", "explicit aborts reachable in non-test repository code are exactly the accepted set", 3)
 	res.rule("C20-R3", "no request can leak an allocated revision (C04-R1..R3)", 10)
+	res.rule("C20-R5", "no allocation is sized by an integer taken from a request (limit, revision, lease ...) without an upper bound: make() with such a size can exceed memory or panic outright", 3)
 	res.rule("C20-R4", "constant-index accesses to request-derived slices in the etcd request layer are dominated by a matching length test", 5)
 
 	lr := &labelRes{p: p, tagFn: p.fn("pkg/metrics", "Tag"), tType: p.namedType("pkg/metrics", "T"), nameFv: p.structField("pkg/metrics", "T", "Name")}
@@ -593,6 +594,7 @@ func checkC20(p *Prog, res *Result, tier string) {
 
 	// ---- R4: guarded constant indexing in the etcd request layer ----
 	checkGuardedIndexing(p, res)
+	checkRequestSizedAllocations(p, res)
 }
 
 // Explicit aborts (panic, klog.Fatal*, log.Fatal*/Panic*, os.Exit, *OrDie of a dependency) are classified by where they
@@ -795,4 +797,280 @@ func checkGuardedIndexing(p *Prog, res *Result) {
 			}
 		}
 	}
+}
+
+
+// ---------- R5: allocations sized by request integers ----------
+
+// requestTainted: the backward slice of v (arithmetic, conversions, phis, local variables, struct fields followed
+// field-based through every store, parameters followed to every caller) reaches an integer field of a request message
+// of the etcd or kubebrain API (or its generated getter).
+func requestTainted(p *Prog, v ssa.Value) (string, bool) {
+	p.buildCallers()
+	seen := map[ssa.Value]bool{}
+	isReqMsg := func(t types.Type) bool {
+		if pt, ok := t.(*types.Pointer); ok {
+			t = pt.Elem()
+		}
+		n, ok := t.(*types.Named)
+		if !ok || n.Obj().Pkg() == nil {
+			return false
+		}
+		pp := n.Obj().Pkg().Path()
+		return (strings.HasSuffix(pp, "etcdserverpb") || strings.Contains(pp, "kubebrain-client/api")) && strings.HasSuffix(n.Obj().Name(), "Request")
+	}
+	var rec func(v ssa.Value, d int) (string, bool)
+	rec = func(v ssa.Value, d int) (string, bool) {
+		if v == nil || d > 14 {
+			return "", false
+		}
+		for _, x := range allCellValuesOpt(p, v, false) {
+			if seen[x] {
+				continue
+			}
+			seen[x] = true
+			switch y := x.(type) {
+			case *ssa.UnOp:
+				if y.Op == token.MUL {
+					if fa, ok := y.X.(*ssa.FieldAddr); ok {
+						if isReqMsg(fa.X.Type()) {
+							return fa.X.Type().String() + "." + fieldOf(fa).Name(), true
+						}
+						fld := fieldOf(fa)
+						if fld.Pkg() == nil || !strings.HasPrefix(fld.Pkg().Path(), modPath) {
+							continue
+						}
+						// the objects the field is read from: when they all resolve to allocation sites, only the values
+						// stored into those objects count (a receiver created with limit 0 is not the one created with
+						// the client's limit); otherwise every store to the field anywhere
+						var vals []ssa.Value
+						if objs, ok := p.allocSitesOf(fa.X, 0, map[ssa.Value]bool{}); ok {
+							for _, st := range p.fields().stores[fld] {
+								for _, o := range objs {
+									if strip(st.Addr.(*ssa.FieldAddr).X) == o {
+										vals = append(vals, st.Val)
+									}
+								}
+							}
+						} else {
+							for _, st := range p.fields().stores[fld] {
+								vals = append(vals, st.Val)
+							}
+						}
+						for _, sv := range vals {
+							if w, ok := rec(sv, d+1); ok {
+								return w, true
+							}
+						}
+					}
+					continue
+				}
+				if w, ok := rec(y.X, d+1); ok {
+					return w, true
+				}
+			case *ssa.BinOp:
+				if w, ok := rec(y.X, d+1); ok {
+					return w, true
+				}
+				if w, ok := rec(y.Y, d+1); ok {
+					return w, true
+				}
+			case *ssa.Convert:
+				if w, ok := rec(y.X, d+1); ok {
+					return w, true
+				}
+			case *ssa.ChangeType:
+				if w, ok := rec(y.X, d+1); ok {
+					return w, true
+				}
+			case *ssa.Extract:
+				if w, ok := rec(y.Tuple, d+1); ok {
+					return w, true
+				}
+			case *ssa.Call:
+				sc := y.Common().StaticCallee()
+				if sc != nil && sc.Signature.Recv() != nil && strings.HasPrefix(sc.Name(), "Get") && isReqMsg(sc.Signature.Recv().Type()) {
+					return sc.Signature.Recv().Type().String() + "." + strings.TrimPrefix(sc.Name(), "Get"), true
+				}
+				if _, isB := y.Common().Value.(*ssa.Builtin); isB || (sc != nil && (isMinFn(sc) || isMaxFn(sc))) {
+					// len/cap of something already in memory is bounded by that memory; min/max pass operands through
+					if bi, ok := y.Common().Value.(*ssa.Builtin); ok && (bi.Name() == "len" || bi.Name() == "cap") {
+						continue
+					}
+					for _, a := range y.Common().Args {
+						if w, ok := rec(a, d+1); ok {
+							return w, true
+						}
+					}
+				}
+			case *ssa.Parameter:
+				fn := y.Parent()
+				idx := sigParamIndex(y)
+				for _, cs := range p.callers[fn] {
+					if idx < 0 {
+						continue
+					}
+					if a := argForSigParam(cs, idx); a != nil {
+						if w, ok := rec(a, d+1); ok {
+							return w, true
+						}
+					}
+				}
+			}
+		}
+		return "", false
+	}
+	return rec(v, 0)
+}
+
+func checkRequestSizedAllocations(p *Prog, res *Result) {
+	n := 0
+	for _, f := range p.AllFuncs {
+		if f.Synthetic != "" || f.Pkg == nil || !strings.HasPrefix(f.Pkg.Pkg.Path(), modPath) || strings.HasSuffix(f.Pkg.Pkg.Path(), "/mock") {
+			continue
+		}
+		k := 0
+		for _, b := range f.Blocks {
+			for _, ins := range b.Instrs {
+				var sizes []ssa.Value
+				what := ""
+				switch x := ins.(type) {
+				case *ssa.MakeSlice:
+					sizes, what = []ssa.Value{x.Len, x.Cap}, "make([]T, ..)"
+				case *ssa.MakeMap:
+					if x.Reserve != nil {
+						sizes, what = []ssa.Value{x.Reserve}, "make(map, ..)"
+					}
+				case *ssa.MakeChan:
+					sizes, what = []ssa.Value{x.Size}, "make(chan, ..)"
+				}
+				nonConst := false
+				for _, sv := range sizes {
+					if _, isC := sv.(*ssa.Const); !isC {
+						nonConst = true
+					}
+				}
+				if !nonConst {
+					continue
+				}
+				k++
+				n++
+				construct := fmt.Sprintf("%s: size of %s #%d", funcName(f), what, k)
+				src := ""
+				for _, sv := range sizes {
+					if _, isC := sv.(*ssa.Const); isC {
+						continue
+					}
+					if w, ok := requestTainted(p, sv); ok {
+						// an upper bound established on the way to the allocation discharges it
+						bounded := false
+						for _, cf := range dominatingFacts(b) {
+							if cf.X == nil {
+								continue
+							}
+							if pureKeyCell(cf.X) == pureKeyCell(sv) {
+								if _, isC := cf.Y.(*ssa.Const); isC && ((cf.Op == token.LSS || cf.Op == token.LEQ) && cf.Want || (cf.Op == token.GTR || cf.Op == token.GEQ) && !cf.Want) {
+									bounded = true
+								}
+							}
+						}
+						if !bounded {
+							src = w
+						}
+					}
+				}
+				if src == "" {
+					res.ok("C20-R5", construct, p.pos(ins.Pos()), "the size does not derive from a request integer (constants, lengths of data already held, configuration), or is bounded")
+				} else {
+					res.bad("C20-R5", construct, p.pos(ins.Pos()), "the allocation is sized by "+src+" with no upper bound: a request naming a huge value makes the node allocate it (out of memory) or panic in makeslice")
+				}
+			}
+		}
+	}
+	res.Stats["allocations_with_dynamic_size"] = n
+}
+
+
+// allocSitesOf resolves a pointer value to the allocation sites (Alloc instructions) it can denote: through local
+// variables, phis, interface conversions, and parameters followed to every caller (for the receiver of a method that
+// is called through an interface: the interface values at the invoke sites). ok=false when some source is unknown.
+func (p *Prog) allocSitesOf(v ssa.Value, depth int, seen map[ssa.Value]bool) ([]ssa.Value, bool) {
+	if depth > 10 {
+		return nil, false
+	}
+	p.buildCallers()
+	var out []ssa.Value
+	for _, x := range allCellValuesOpt(p, v, false) {
+		if seen[x] {
+			continue
+		}
+		seen[x] = true
+		switch y := x.(type) {
+		case *ssa.Alloc:
+			out = append(out, y)
+		case *ssa.MakeInterface:
+			o, ok := p.allocSitesOf(y.X, depth+1, seen)
+			if !ok {
+				return nil, false
+			}
+			out = append(out, o...)
+		case *ssa.ChangeInterface:
+			o, ok := p.allocSitesOf(y.X, depth+1, seen)
+			if !ok {
+				return nil, false
+			}
+			out = append(out, o...)
+		case *ssa.TypeAssert:
+			o, ok := p.allocSitesOf(y.X, depth+1, seen)
+			if !ok {
+				return nil, false
+			}
+			out = append(out, o...)
+		case *ssa.Parameter:
+			fn := y.Parent()
+			idx := paramIndex(y)
+			cs := p.callers[fn]
+			if len(cs) == 0 || p.addressTaken(fn) {
+				return nil, false
+			}
+			for _, c := range cs {
+				var a ssa.Value
+				if c.Common().IsInvoke() {
+					if idx == 0 {
+						a = c.Common().Value
+					} else if idx-1 < len(c.Common().Args) {
+						a = c.Common().Args[idx-1]
+					}
+				} else if idx < len(c.Common().Args) {
+					a = c.Common().Args[idx]
+				}
+				if a == nil {
+					return nil, false
+				}
+				o, ok := p.allocSitesOf(a, depth+1, seen)
+				if !ok {
+					return nil, false
+				}
+				out = append(out, o...)
+			}
+		case *ssa.Call:
+			// constructor: a local function returning a fresh object
+			sc := y.Common().StaticCallee()
+			if sc == nil || sc.Blocks == nil || sc.Pkg == nil || !strings.HasPrefix(sc.Pkg.Pkg.Path(), modPath) || sc.Signature.Results().Len() != 1 {
+				return nil, false
+			}
+			for _, b := range sc.Blocks {
+				if ret, ok := b.Instrs[len(b.Instrs)-1].(*ssa.Return); ok {
+					o, ok := p.allocSitesOf(ret.Results[0], depth+1, seen)
+					if !ok {
+						return nil, false
+					}
+					out = append(out, o...)
+				}
+			}
+		default:
+			return nil, false
+		}
+	}
+	return out, true
 }
